@@ -135,7 +135,10 @@ pub fn run(ctx: &mut Ctx) {
     ctx.rng.shuffle(&mut picks);
     // the same-bracket configurations are the ones a hand-written `supports` gets wrong most easily: always in
     let mut chosen: Vec<(usize, usize)> = vec![pool[ctx.rng.below(4)]];
-    chosen.extend(picks.into_iter().take(n_edge - 1));
+    // … and the two extreme corners (a count of 1 next to 65535): always in as well
+    chosen.push(pool[10]);
+    chosen.push(pool[11]);
+    chosen.extend(picks.into_iter().filter(|p| *p != pool[10] && *p != pool[11]).take(n_edge - 1));
     for (j, (k, r)) in chosen.into_iter().enumerate() {
         let mut c = Case::new(&format!("oneshot-edge-{}", j));
         c.with_model = false;
